@@ -6,7 +6,9 @@
 set -u
 id="$1"; wt="$2"; shift 2
 export GOFLAGS=-mod=mod GOPROXY=off GOSUMDB=off GOTOOLCHAIN=local
-out=/verif/seeded/$id
+# VERIF_ROOT / REPO_ROOT: run against a private clone (tools/mkbuilder.sh) instead of /verif and /repo
+V=${VERIF_ROOT:-/verif}; R=${REPO_ROOT:-/repo}
+out=$V/seeded/$id
 mkdir -p "$out"
 patch="$out/patch.diff"
 if [ "$wt" = "-" ]; then
@@ -46,19 +48,18 @@ echo "confirm: build_rc=$rc_build demo_without_rc=$rc_without (want 0) demo_with
 if [ $rc_without -ne 0 ] || [ $rc_with -eq 0 ] || [ $rc_suite -ne 0 ] || [ $rc_build -ne 0 ]; then echo "NOT CONFIRMED" | tee -a "$log"; exit 3; fi
 fi
 # run our checks against /repo with the patch (other check invocations wait meanwhile)
-exec 8>/tmp/.verif-repo.lock
-flock -x 8
+if [ "$R" = /repo ]; then exec 8>/tmp/.verif-repo.lock; flock -x 8; fi
 export SEEDTEST=1
-cd /repo && git apply "$patch" || { echo "patch does not apply to /repo"; exit 2; }
+cd $R && git apply "$patch" || { echo "patch does not apply to $R"; exit 2; }
 res="$out/checks.log"; [ "$wt" = "-" ] && echo "== re-run $(date -u +%H:%M)" >> "$res" || : > "$res"
 for c in "$@"; do
   echo "== ./check $c (quick) with seeded change $id" >> "$res"
-  ( cd /verif && ./check $c --tier quick ) > /tmp/seedrun.$$ 2>&1; rc=$?
+  ( cd $V && ./check $c --tier quick ) > /tmp/seedrun.$$ 2>&1; rc=$?
   grep -E "VIOLATION|KNOWN-FINDING|^C[0-9][0-9]:|INFRA" /tmp/seedrun.$$ | head -8 >> "$res"
   echo "exit=$rc" >> "$res"
   echo "check $c: exit=$rc ($(grep -c VIOLATION /tmp/seedrun.$$) violation lines)"
 done
 rm -f /tmp/seedrun.$$
-git -C /repo checkout -q -- .
-git -C /repo status --short | head -3
-rm -rf /verif/replays
+git -C $R checkout -q -- .
+git -C $R status --short | head -3
+rm -rf $V/replays
